@@ -81,3 +81,50 @@ def check_record(rec):
                 if pos[n] < pos[ln]:
                     problems.append({"kind": "dependent-before-loop", "node": repr(n), "loop": r})
     return problems, stats
+
+
+def intersection_operands(text):
+    """Text monitor for `Fiber.intersection(f1, .., fn, style=...)` in a loop header:
+    the operands are distinct fiber variables and they belong to exactly the tensors whose
+    payloads the header destructures (the ORDER is not judged here: KF-6 is about order).
+    Returns (problems, number of calls seen)."""
+    import ast
+    problems, seen = [], 0
+    try:
+        tree = ast.parse(text)
+    except SyntaxError:
+        return problems, seen
+
+    def names(t):
+        if isinstance(t, ast.Name):
+            return [t.id]
+        if isinstance(t, (ast.Tuple, ast.List)):
+            return [n for e in t.elts for n in names(e)]
+        return []
+    for node in ast.walk(tree):
+        if not isinstance(node, ast.For):
+            continue
+        for call in ast.walk(node.iter):
+            if isinstance(call, ast.Call) and isinstance(call.func, ast.Attribute) and \
+                    call.func.attr == "intersection" and isinstance(call.func.value, ast.Name) \
+                    and call.func.value.id == "Fiber":
+                seen += 1
+                args = [a.id for a in call.args if isinstance(a, ast.Name)]
+                if len(args) != len(call.args):
+                    continue
+                if len(set(args)) != len(args):
+                    problems.append({"kind": "intersection-operands", "what": "duplicate operand",
+                                     "operands": args, "line": node.lineno})
+                    continue
+                # payload names destructured by the header: the last element of the target
+                tgt = node.target
+                pay = tgt.elts[-1] if isinstance(tgt, ast.Tuple) and tgt.elts else None
+                got = sorted(n.split("_")[0] for n in names(pay)) if pay is not None else None
+                want = sorted(a.split("_")[0] for a in args)
+                # the header may also destructure the output's payload (z_ref / z_n) first
+                if got is not None and not all(w in got for w in want):
+                    problems.append({"kind": "intersection-operands",
+                                     "what": "operands are not the tensors the header destructures",
+                                     "operands": args, "destructured": names(pay),
+                                     "line": node.lineno})
+    return problems, seen
